@@ -259,16 +259,14 @@ NAMES = {"cmp": "comparison", "nse": "eqNullSafe", "isnull": "isNull", "isnotnul
          "logic": "and-or", "neg": "neg", "item": "getItem", "call": "call", "when": "when", "cast": "cast", "leaf": "leaf"}
 
 
-def marker_sig(marker: str) -> str:
-    """'cmp(nse,leaf)' -> 'C05/eqNullSafe-operand-of-comparison' (first operand that is not closed)"""
+def marker_sigs(marker: str) -> list:
+    """'cmp(nse,leaf)' -> ['C05/eqNullSafe-operand-of-comparison'] : one candidate per operand that is not closed"""
     m = re.fullmatch(r"(\w+)\((.*)\)", marker)
     parent, ops = m.group(1), m.group(2).split(",")
     opened = [o for o in ops if o not in CLOSED_KINDS]
-    if parent == "rlogic" and not opened:
-        return "C05/reflected-and-or-unparenthesised"
     if not opened:
-        return f"C05/unsafe-{NAMES.get(parent, parent)}({','.join(ops)})"
-    return f"C05/{NAMES.get(opened[0], opened[0])}-operand-of-{NAMES.get(parent, parent)}"
+        return [f"C05/unsafe-{NAMES.get(parent, parent)}({','.join(ops)})"]
+    return [f"C05/{NAMES.get(o, o)}-operand-of-{NAMES.get(parent, parent)}" for o in dict.fromkeys(opened)]
 
 
 def has_kind(t, k):
@@ -292,7 +290,7 @@ def alias_kept(t):
 
 
 def signatures(t, markers):
-    sigs = ["C05/alias-kept-in-" + p for p in alias_kept(t)] + [marker_sig(m) for m in markers]
+    sigs = ["C05/alias-kept-in-" + p for p in alias_kept(t)] + [x for m in markers for x in marker_sigs(m)]
     if has_kind(t, "endswith"):
         sigs.append("C05/endswith-unknown-function")
     if has_kind(t, "getitemcol"):
@@ -323,6 +321,16 @@ def double_cast(t):
     return any(double_cast(c) for c in T.children(t))
 
 
+def typed_key(t):
+    """getItem(<Column>) whose key is not plain column arithmetic: sqlglot's DuckDB generator then adds its index
+    offset depending on its own type inference (CAST/CASE/literal types) -- not modelled, not generated"""
+    def plain(k):
+        return k[0] in ("col", "lit", "py") or (k[0] in ("bin", "rbin", "neg") and all(plain(c) for c in T.children(k)))
+    if t[0] == "getitemcol" and not plain(t[2]):
+        return True
+    return any(typed_key(c) for c in T.children(t))
+
+
 def make_trees(ctx):
     rnd = random.Random(ctx.seed)
     g = T.Gen(rnd)
@@ -337,7 +345,7 @@ def make_trees(ctx):
     for src, ts in (("corpus", CORPUS), ("exhaustive", exh), ("random", rand)):
         for t in ts:
             k = repr(t)
-            if k not in seen and not double_cast(t):
+            if k not in seen and not double_cast(t) and not typed_key(t):
                 seen.add(k)
                 out.append((src, t))
     return out, len(exh)
@@ -530,7 +538,7 @@ def run(ctx: core.Ctx):
                 stats["regrouped_value_equal"] += 1
         else:
             sigs = signatures(t, markers)
-            if len(sigs) == 1:
+            if len(set(sigs)) == 1:
                 confirmed.add(sigs[0])
             devs.append(("DEV", (t, sigs, bad, desc)))
         if len(ctx.samples) < 5 and T.depth(t) >= 3:
